@@ -3,7 +3,7 @@ from .. import common as C
 from .. import mgr_props as MP
 
 PROP = "C06"
-DRIVERS = MP.DRIVERS
+DRIVERS = list(MP.DRIVERS) + ["drv_clientsub"]     # the client half of the dynamic-id sentence runs on the M2 life-cycle model
 LEAN_TARGETS = ["Pyrtma.Props.C06"]
 LEVEL = "proof"
 MATCHERS = {}
@@ -20,10 +20,55 @@ def run(res: C.Result, deep: bool):
         res.failures.append(C.Failure(clause="options_honoured: " + f["what"], case={"client_entry": f},
                                       detail=f"{f['entry']}({f['options']}): {f['what']}",
                                       finding=C.match_finding(PROP, f["what"], f, MATCHERS)))
+    _client_life(res, deep)
+
+
+def _client_life(res: C.Result, deep: bool):
+    """"A client asking for id 0 ... learns it from the acknowledgement", client side, over several sessions of one Client
+    object: the real Client against the real manager, compared with Model/ClientLife.lean (identity projection) and judged
+    by the clauses `lifeC06` of Spec/ClientLife.lean (theorems: Props/C02.lean connect_requests_created_id,
+    reported_id_is_acked_id, dynamic_id_fresh)."""
+    from .. import client_corr as K
+    rng = C.rng_for(res.seed, "C06life" + ("deep" if deep else ""))
+    cases = [(f"l{i}", c) for i, c in enumerate(K.life_id_cases(rng, 1500 if deep else 300))]
+    lines = []
+    blks = {}
+    for cid, case in cases:
+        try:
+            blk = K.run_life_case(cid, case)
+        except C.MachineryError:
+            raise
+        except BaseException as e:  # noqa: BLE001
+            if isinstance(e, (KeyboardInterrupt, SystemExit)):
+                raise
+            res.failures.append(C.Failure(clause="harness_could_not_complete_case", case={"client_life": case},
+                                          detail=f"life-cycle case {cid}: {type(e).__name__}: {e}"))
+            continue
+        blks[cid] = blk
+        lines += blk
+    out = C.parse_driver(C.run_driver("clientsub", lines))
+    n_conn = 0
+    for cid, case in cases:
+        if cid not in blks:
+            continue
+        r = out.get(cid)
+        if r is None:
+            raise C.MachineryError(f"driver gave no answer for life-cycle case {cid}")
+        res.evaluations += 1
+        n_conn += sum(1 for l in blks[cid] if l.startswith("LPH ") and " R - " not in l)
+        jc = {"client_life": case, "protocol": blks[cid]}
+        for d in r["corr"]:
+            res.corr_diffs.append({"name": "corr:M2/life-cycle-ids", "diff": d[:1500], "case": jc})
+        for v in r["props"].get(PROP, []):
+            if v.startswith("fail"):
+                res.failures.append(C.Failure(clause="client_identity: " + v[5:].split()[0], case=jc, detail=v[5:],
+                                              finding=C.match_finding(PROP, v[5:], jc, MATCHERS)))
+    res.extra["client_life_cases"] = len(blks)
+    res.extra["client_life_handshakes"] = n_conn
 
 
 def replay(body):
-    case = body.get("case") or {}
+    case = body.get("case") or (body.get("first_corr_diff") or {}).get("case") or {}
     if "client_entry" in case:
         from .. import client_entry as E
         C.use_repo()
@@ -33,4 +78,14 @@ def replay(body):
         for f in bad:
             print(f)
         return 1 if bad else 0
+    if "client_life" in case:
+        from .. import client_corr as K
+        C.use_repo()
+        c = case["client_life"]
+        c = dict(c, ops=[tuple(o) for o in c["ops"]], others=[tuple(o) for o in c.get("others", [])])
+        blk = K.run_life_case("replay", c)
+        out = C.run_driver("clientsub", blk)
+        print("\n".join(blk))
+        print("\n".join(out))
+        return 1 if any("PROP C06 fail" in o or "CORR diff" in o for o in out) else 0
     return MP.replay(PROP, body)
